@@ -378,7 +378,7 @@ def _run_history(d: Daemon, hist: list[dict[str, Any]], expected_check: dict[int
                     % (i, ev["cls"], ev["sent"], ev["waits"], ev["reply"], got,
                        "" if resp is None else str(resp)[:300]), seen)
         if not ev["alive"]:
-            if not d.wait_exit(15):
+            if not d.wait_exit(240):
                 return "model: daemon exits after %s; real daemon still running" % ev["cls"], seen
             if os.path.exists(d.status_file):
                 return "PROPERTY: daemon exited but its status file remains", seen
@@ -464,7 +464,7 @@ def replay_lifecycle(args: tuple[int, list[dict[str, Any]], str]) -> tuple[str |
         return True
 
     def dmypy(*a: str) -> int:
-        p = subprocess.run([PY, "-m", "mypy.dmypy", "--status-file", sf, *a], cwd=d, env=repo_env(), capture_output=True, text=True, timeout=120)
+        p = subprocess.run([PY, "-m", "mypy.dmypy", "--status-file", sf, *a], cwd=d, env=repo_env(), capture_output=True, text=True, timeout=600)
         return p.returncode
 
     try:
@@ -477,7 +477,7 @@ def replay_lifecycle(args: tuple[int, list[dict[str, Any]], str]) -> tuple[str |
                 if pid is not None and pid_alive(pid):
                     os.kill(pid, signal.SIGKILL)
                     t0 = time.time()
-                    while pid_alive(pid) and time.time() - t0 < 10:
+                    while pid_alive(pid) and time.time() - t0 < 90:
                         time.sleep(0.01)
                 rc = 0
             elif c == "start":
@@ -498,7 +498,7 @@ def replay_lifecycle(args: tuple[int, list[dict[str, Any]], str]) -> tuple[str |
             if c in ("stop", "kill"):
                 # the process goes away asynchronously after answering / being signalled
                 t0 = time.time()
-                while any(pid_alive(p) for p in pids if p != pid or c in ("stop", "kill")) and time.time() - t0 < 10 and not e["alive"]:
+                while any(pid_alive(p) for p in pids if p != pid or c in ("stop", "kill")) and time.time() - t0 < 90 and not e["alive"]:
                     time.sleep(0.01)
             live = [p for p in pids if pid_alive(p)]
             got = {"rc": 0 if rc == 0 else 2, "alive": bool(live), "file": os.path.exists(sf)}
